@@ -31,6 +31,9 @@ STAGES = {
     "C10": [S("programs", "^TestC10$", quick=2500, thorough=15000, shards=(4, 16))],
     "C15": [S("outbound", "^TestC15$", quick=3000, thorough=20000, shards=(3, 16)),
             S("inbound", "^TestC15Inbound$", quick=1500, thorough=10000, shards=(3, 16))],
+    "C18": [S("regress", "^TestC18Regress$"),
+            S("stream", "^TestC18$", quick=600, thorough=5000, shards=(4, 16)),
+            S("deadlines", "^TestC18Deadlines$", quick=3000, thorough=20000, shards=(2, 16))],
     "C16": [S("regress", "^TestC16Regress$"),
             S("schedules", "^TestC16$", quick=3000, thorough=20000, shards=(4, 16)),
             S("schedules-race", "^TestC16$", quick=300, thorough=3000, shards=(2, 16), race=True)],
